@@ -13,7 +13,8 @@ FUNCTIONS = ["sigpy.prox.{Prox.__call__,L1Reg,L2Reg,L2Proj,LInfProj,L1Proj,BoxCo
              "sigpy.thresh.{soft_thresh,hard_thresh,l1_proj,l2_proj,linf_proj,_soft_thresh,_hard_thresh}", "sigpy.util.{split,vec}"]
 BOUNDS = {"quick": "shapes (1,), (2,), (2,1)/(1,2) real and (1,), (2,) complex; l1_proj <= 3 real entries; alpha, lamda, eps > 0 symbolic",
           "thorough": "adds (3,), (2,2) real, (3,) complex for the separable operators and nested combinators"}
-OUTSIDE = ["PsdProj/psd_proj (LAPACK eigendecomposition: np.linalg.eig cannot run on symbolic matrices; see DESIGN.md C11)", "shapes beyond the bound",
+OUTSIDE = ["PsdProj/psd_proj beyond 2x2 general and 3x3 with a double eigenvalue; the LAPACK eigensolver is a contract stub (any orthonormal eigenbasis "
+           "for eigh; unit-norm eigenvectors without orthogonality inside repeated eigenspaces for eig)", "shapes beyond the bound",
            "optimality is asserted in first-order (KKT) form, which characterises the unique minimiser of the strongly convex problem"]
 ASSUMPTIONS = ["alpha > 0 and regularisation / ball parameters > 0 (lower <= upper for the box) are assumed", "division by |y| in soft-thresholding is "
                "defined on the branch where |y| != 0 (recorded as a definedness assumption)"]
@@ -339,7 +340,96 @@ def h_thresh(cfg, V):
     return obl
 
 
-HARNESSES = {"l1reg": h_l1reg, "l2reg": h_l2reg, "l2proj": h_l2proj, "linfproj": h_linfproj, "box": h_box, "l1proj": h_l1proj, "conj": h_conj,
+def _unit_pair(V, name):
+    """complex (p, q) with |p|^2 + |q|^2 = 1"""
+    p, q = V.scalar(name + "p", True), V.scalar(name + "q", True)
+    V.assume(O.eq(O.norm2([p]) + O.norm2([q]), 1), "|%sp|^2+|%sq|^2 = 1" % (name, name))
+    return p, q
+
+
+def _unit(V, name):
+    e = V.scalar(name, True)
+    V.assume(O.eq(O.norm2([e]), 1), "|%s| = 1" % name)
+    return e
+
+
+def h_psd(cfg, V):
+    """PsdProj / psd_proj with the LAPACK eigensolver replaced by a nondeterministic stub constrained by its documented contract:
+    eigh: ANY orthonormal eigenbasis (arbitrary phases; arbitrary unitary mixing inside a repeated eigenvalue's eigenspace);
+    eig:  eigenvectors of unit norm only - inside a repeated eigenvalue's eigenspace they need not be orthogonal.
+    The input is parametrised by its own eigendecomposition (every matrix is Hermitian part U diag(l) U^H + anti-Hermitian part)."""
+    from sigpy import thresh, prox
+    cj = np.conj
+    obj = object if V.symbolic else np.complex128
+    if cfg["case"] == "general2":
+        n = 2
+        p, q = _unit_pair(V, "u")
+        U = np.array([[p, -cj(q)], [q, cj(p)]], dtype=obj)
+        lam = [V.scalar("l0"), V.scalar("l1")]
+        e0, e1 = _unit(V, "e0"), _unit(V, "e1")
+        Mh = np.array([[e0, 0], [0, e1]], dtype=obj)          # eigh (and eig for distinct eigenvalues): phases only
+        a, b = _unit_pair(V, "ma")
+        c, d = _unit_pair(V, "mb")
+        Mg = np.array([[a, c], [b, d]], dtype=obj)            # eig, repeated eigenvalue: any two unit vectors
+        repeated = (lam[0] == lam[1]) if V.symbolic else (lam[0] == lam[1])
+    else:
+        n = 3
+        U = np.array([[2, -1, 2], [2, 2, -1], [-1, 2, 2]], dtype=obj) / 3     # rational rotation
+        if V.symbolic:
+            U = np.array([[S.SymK.lift(Fraction(int(round(float(complex(v).real) * 3)), 3)) for v in row] for row in U], dtype=object)
+        l, l3 = V.scalar("l0"), V.scalar("l2")
+        lam = [l, l, l3]                                        # a double eigenvalue by construction
+        p, q = _unit_pair(V, "r")
+        e = _unit(V, "e")
+        e2 = _unit(V, "e2")
+        Mh = np.array([[p, -cj(q) * e, 0], [q, cj(p) * e, 0], [0, 0, e2]], dtype=obj)   # unitary mixing of the double eigenspace
+        a, b = _unit_pair(V, "ma")
+        c, d = _unit_pair(V, "mb")
+        Mg = np.array([[a, c, 0], [b, d, 0], [0, 0, e2]], dtype=obj)
+        repeated = True
+    D = np.zeros((n, n), dtype=obj)
+    for i in range(n):
+        D[i, i] = lam[i]
+    H = U @ D @ cj(U).T
+    K = np.zeros((n, n), dtype=obj)
+    for i in range(n):
+        K[i, i] = 1j * V.scalar("k%d" % i)
+        for j in range(i + 1, n):
+            kij = V.scalar("k%d%d" % (i, j), True)
+            K[i, j] = kij
+            K[j, i] = -cj(kij)
+    Y = H + K
+    Y0 = Y.copy()
+    seen = []
+    w_ret = np.array(lam, dtype=object if V.symbolic else np.float64)
+
+    def stub_eigh(a, *args, **kw):
+        seen.append(("eigh", np.array(a, copy=True)))
+        return w_ret.copy(), U @ Mh
+
+    def stub_eig(a, *args, **kw):
+        seen.append(("eig", np.array(a, copy=True)))
+        rep = bool(repeated) if not isinstance(repeated, bool) else repeated
+        return w_ret.astype(obj).copy(), U @ (Mg if rep else Mh)
+    o1, o2 = np.linalg.eigh, np.linalg.eig
+    if V.symbolic:
+        np.linalg.eigh, np.linalg.eig = stub_eigh, stub_eig
+    try:
+        X = thresh.psd_proj(Y) if cfg["via"] == "thresh" else prox.PsdProj([n, n])(1, Y)
+    finally:
+        np.linalg.eigh, np.linalg.eig = o1, o2
+    Dp = np.zeros((n, n), dtype=obj)
+    for i in range(n):
+        Dp[i, i] = lam[i] if (lam[i] > 0) else 0
+    ref = U @ Dp @ cj(U).T
+    good = O.eq(X, ref)
+    if V.symbolic:
+        # the stub answers for the Hermitian part H; its answer is only meaningful if H is what the code asked it to decompose (once)
+        good = B.and_(good, O.const(len(seen) == 1), O.eq(seen[0][1], H) if seen else O.const(False))
+    return [("projection_is_U_maxlam0_UH", good), ("shape", O.const(np.shape(X) == (n, n))), ("input_unchanged", O.eq(Y, Y0))]
+
+
+HARNESSES = {"psd": h_psd, "l1reg": h_l1reg, "l2reg": h_l2reg, "l2proj": h_l2proj, "linfproj": h_linfproj, "box": h_box, "l1proj": h_l1proj, "conj": h_conj,
              "stack": h_stack, "unitary": h_unitary, "thresh": h_thresh}
 
 
@@ -387,6 +477,9 @@ def configs(tier, seed):
         for al in ("scalar", "array"):
             add("stack", "[1]+[1]:%s:alpha=%s" % ("c" if cplx else "r", al), shapes=[[1], [1]], cplx=cplx, alpha=al)
     add("stack", "[2]+[1,2]:r:alpha=array", shapes=[[2], [1, 2]], cplx=False, alpha="array")
+    for case in ("general2", "repeated3"):
+        for via in ("thresh", "prox"):
+            add("psd", "%s:%s" % (case, via), case=case, via=via)
     for a, sh, fld in (("flip", [2], 4), ("circshift", [2], 4), ("transpose", [1, 2], 4), ("fft", [2], 8)):
         add("unitary", "%s:%s" % (a, sh), shape=sh, A=a, field=fld)
     return out
